@@ -7,4 +7,15 @@ def expectedC15 : List (String × String) := [("lits:fit.LOESS", "0 0 0 0 1 1 1 
 /-- the constants and literals the C15 model mirrors are still what the source says -/
 theorem facts_C15 : holdsAll expectedC15 = true := by decide
 
+
+/-- State that outlives a call, as extracted from the source on this run: the package-level
+variables of the packages this property's code lives in, the functions (other than `init`) that
+assign to them or call methods on them, and the fields of the property's struct types. The model is
+a pure function of the arguments and of these fields; a new variable, writer or field is state the
+model does not know of. -/
+def stateC15 : List (String × String) := [("globals:fit", ""), ("globalwrites:fit", ""), ("fields:fit.PolynomialRegressionResult", "Coefficients:[]float64 F:func(xfloat64)float64"), ("fields:fit.pairSlice", "xs:[]float64 ys:[]float64")]
+
+/-- the source has exactly the package-level variables, writers and struct fields the model accounts for -/
+theorem state_C15 : holdsAll stateC15 = true := by decide +kernel
+
 end MV.Facts
